@@ -778,8 +778,8 @@ constexpr auto swap(static_vector<T, Capacity>& lhs, static_vector<T, Capacity>&
 template <typename T, size_t Capacity>
 constexpr auto operator==(static_vector<T, Capacity> const& lhs, static_vector<T, Capacity> const& rhs) noexcept -> bool
 {
-    if (size(lhs) == size(rhs)) {
-        return equal(begin(lhs), end(lhs), begin(rhs), end(rhs), equal_to{});
+    if (lhs.size() == rhs.size()) {
+        return etl::equal(lhs.begin(), lhs.end(), rhs.begin(), rhs.end(), equal_to{});
     }
 
     return false;
@@ -799,7 +799,7 @@ constexpr auto operator!=(static_vector<T, Capacity> const& lhs, static_vector<T
 template <typename T, size_t Capacity>
 constexpr auto operator<(static_vector<T, Capacity> const& lhs, static_vector<T, Capacity> const& rhs) noexcept -> bool
 {
-    return lexicographical_compare(begin(lhs), end(lhs), begin(rhs), end(rhs));
+    return etl::lexicographical_compare(lhs.begin(), lhs.end(), rhs.begin(), rhs.end());
 }
 
 template <typename T, size_t Capacity>
@@ -828,8 +828,8 @@ constexpr auto operator>=(static_vector<T, Capacity> const& lhs, static_vector<T
 template <typename T, size_t Capacity, typename Predicate>
 constexpr auto erase_if(static_vector<T, Capacity>& c, Predicate pred) -> typename static_vector<T, Capacity>::size_type
 {
-    auto* it = remove_if(c.begin(), c.end(), pred);
-    auto r   = distance(it, c.end());
+    auto* it = etl::remove_if(c.begin(), c.end(), pred);
+    auto r   = etl::distance(it, c.end());
     c.erase(it, c.end());
     return static_cast<typename static_vector<T, Capacity>::size_type>(r);
 }
@@ -837,7 +837,7 @@ constexpr auto erase_if(static_vector<T, Capacity>& c, Predicate pred) -> typena
 template <typename T, size_t Capacity, typename U>
 constexpr auto erase(static_vector<T, Capacity>& c, U const& value) -> typename static_vector<T, Capacity>::size_type
 {
-    return erase_if(c, [&value](auto const& item) { return item == value; });
+    return etl::erase_if(c, [&value](auto const& item) { return item == value; });
 }
 
 } // namespace etl
